@@ -108,6 +108,7 @@ struct World {
     dg_q: [std::collections::VecDeque<String>; 2], // receiving side: the datagrams the endpoint's buffer must hold (shadow)
     dg_q_ok: [bool; 2], // … as long as the shadow is certain
     tabled: [std::collections::BTreeSet<u32>; 2], // ids of Connects this endpoint has taken in (not refused) and its application has not accepted yet
+    abandoned: [std::collections::BTreeSet<u32>; 2], // ids of own stream requests whose caller gave up and which the peer has not answered yet
     free_ids: [std::collections::HashSet<u32>; 2],   // flow ids an endpoint has certainly let go of (and not taken up again)
     bind_ids: [std::collections::HashSet<u32>; 2],   // flow ids under which an endpoint has a bind request out
     port_handle: HashMap<u64, [Option<usize>; 2]>,
@@ -254,6 +255,7 @@ impl World {
             dg_q: [std::collections::VecDeque::new(), std::collections::VecDeque::new()],
             dg_q_ok: [true; 2],
             tabled: [std::collections::BTreeSet::new(), std::collections::BTreeSet::new()],
+            abandoned: [std::collections::BTreeSet::new(), std::collections::BTreeSet::new()],
             free_ids: [std::collections::HashSet::new(), std::collections::HashSet::new()],
             bind_ids: [std::collections::HashSet::new(), std::collections::HashSet::new()],
             port_handle: HashMap::new(),
@@ -492,7 +494,7 @@ impl World {
             if drawn.iter().any(|id| self.seen_ids.contains(id)) { self.any_reuse = true; }
             // (an id the endpoint itself holds an unaccepted incoming stream for is not a *re*-use: nothing has
             // let go of it — proposing it is judged by `connect-id-in-use`)
-            if drawn.iter().any(|id| self.seen_ids.contains(id) && !self.tabled[e].contains(id) && !self.reuse_is_clean(*id)) {
+            if drawn.iter().any(|id| self.seen_ids.contains(id) && !self.tabled[e].contains(id) && !self.abandoned[e].contains(id) && !self.reuse_is_clean(*id)) {
                 self.reused = true;
             }
         }
@@ -528,9 +530,9 @@ impl World {
             self.est[e].clear();
             self.pend[e].clear();
             self.inc[e].clear();
-            self.tabled[e].clear();
+            self.tabled[e].clear(); self.abandoned[e].clear();
             self.bind_wire[e].clear();
-            self.tabled[e].clear();
+            self.tabled[e].clear(); self.abandoned[e].clear();
         }
         // endpoint e is running: no terminating stimulus so far, task not finished
         let up_e = !self.view[e].exited && self.view[e].terminated_by.is_none();
@@ -615,6 +617,7 @@ impl World {
                         }
                     }
                     if op == 2 { self.tabled[e].remove(&id); }
+                    if matches!(op, 1 | 2 | 3) { self.abandoned[e].remove(&id); }
                     if op == 0 { self.backlog[e][0] += 1; }
                     if op == 5 { self.backlog[e][1] += 1; }
                     if op == 0 {
@@ -638,6 +641,9 @@ impl World {
                 let req: u64 = t[1].parse().unwrap();
                 self.view[e].opens.remove(&req);
                 self.cancelled = true;
+                // (the request's slot stays in the table until the peer answers: its id is still in use)
+                let ids: Vec<u32> = self.pend[e].iter().filter(|(_, r)| **r == req).map(|(id, _)| *id).collect();
+                if up_e && !lagging { self.abandoned[e].extend(ids); }
                 self.pend[e].clear();
             }
             ("accept", ["stream", h, host, port]) => {
@@ -765,7 +771,7 @@ impl World {
                 self.est[e].clear();
                 self.pend[e].clear();
                 self.inc[e].clear();
-                self.tabled[e].clear();
+                self.tabled[e].clear(); self.abandoned[e].clear();
                 // C06, "the peer is told": the application lets go of a stream it has not shut down while
                 // the peer application may still be reading it. Unless a Reset of that flow has already
                 // passed in either direction, only a Reset from this endpoint can end the peer's reads,
@@ -904,13 +910,13 @@ impl World {
                 }
             }
             ("dropmux", ["unit"]) => {
-                self.tabled[e].clear();
+                self.tabled[e].clear(); self.abandoned[e].clear();
                 self.view[e].mux_alive = false;
                 self.view[e].terminated_by = Some("dropmux".into());
                 self.est[e].clear();
                 self.pend[e].clear();
                 self.inc[e].clear();
-                self.tabled[e].clear();
+                self.tabled[e].clear(); self.abandoned[e].clear();
             }
             ("deliver", _) => {
                 let invalid_frame = t[1] == "bin" && t.get(2).is_some_and(|h| !frame_valid(h));
@@ -947,7 +953,7 @@ impl World {
                         self.est[e].clear();
                         self.pend[e].clear();
                         self.inc[e].clear();
-                        self.tabled[e].clear();
+                        self.tabled[e].clear(); self.abandoned[e].clear();
                     }
                 } else if let Some((op, id, p)) = parse_frame(t[2]) {
                     let evl: Vec<&str> = evs.split("; ").filter(|s| !s.is_empty()).collect();
@@ -1159,8 +1165,8 @@ impl World {
                                 .and_then(|(_, _, p)| self.open_ports.get(&u64::from(u16::from_be_bytes([p[4], p[5]]))).copied())
                                 .filter(|(oe, _)| *oe == e).map(|(_, req)| req));
                             let other_pending = self.pend[e].get(&id).is_some_and(|r| this_req.is_some_and(|q| q != *r));
-                            if clean && !lagging && !reused_before && (self.est[e].contains_key(&id) || other_pending || self.tabled[e].contains(&id)) {
-                                let how = if self.est[e].contains_key(&id) { "an established stream its application still holds" } else if other_pending { "another open request of its own that is still unanswered" } else { "a stream of the peer whose Connect it has taken in and not refused (it waits for the application in, or at, the accept queue)" };
+                            if clean && !lagging && !reused_before && (self.est[e].contains_key(&id) || other_pending || self.tabled[e].contains(&id) || self.abandoned[e].contains(&id)) {
+                                let how = if self.est[e].contains_key(&id) { "an established stream its application still holds" } else if other_pending { "another open request of its own that is still unanswered" } else if self.abandoned[e].contains(&id) { "an open request of its own whose caller has given up and which the peer has not answered yet (its Connect is still out)" } else { "a stream of the peer whose Connect it has taken in and not refused (it waits for the application in, or at, the accept queue)" };
                                 let msg = format!("endpoint {} proposed flow id {id:08x} in a Connect (at `{}`) while it uses that id for {how}", NAMES[e], t.join(" "));
                                 // (recorded under its own key: the id was in use, not released and drawn again)
                                 if !self.fails.iter().any(|f| f.0 == "C07" && f.1 == "connect-id-in-use") {
@@ -1237,6 +1243,25 @@ impl World {
                     if *c > 1 {
                         self.fail("C15", "bind-twice", format!("bind request {req} resolved twice"));
                     }
+                    {
+                        // C15 / C10 (whatever the peer sent before, whatever ids were used twice): the only frame that
+                        // answers a bind request with `false` is a Reset. A request resolved `false` by the delivery of
+                        // another well-formed frame (an Acknowledge, a Push … under its id) was answered by nobody:
+                        // PROTOCOL.md has such a frame answered with a Reset and the request kept.
+                        let port = self.bind_ports.iter().find(|(_, v)| **v == (e, req)).map(|(p, _)| *p);
+                        let decision = port.and_then(|p| self.bind_decision.get(&p).copied());
+                        let conn_ended = self.view[0].exited || self.view[1].exited || self.view[0].terminated_by.is_some() || self.view[1].terminated_by.is_some();
+                        let foreign = t[0] == "deliver" && t.get(1) == Some(&"bin") && t.get(2).is_some_and(|h| frame_valid(h) && parse_op(h).is_some_and(|op| op != 2));
+                        if *r == "false" && foreign && decision != Some(false) && !conn_ended && !self.in_batch {
+                            *self.mon.entry("bind-false-on-foreign-frame/judged").or_insert(0) += 1;
+                            let msg = format!("bind request {req} of {} resolved `false` on the delivery of the well-formed frame {} — not a Reset: the peer application neither rejected nor dropped that request (decision {decision:?}) and the connection is up", NAMES[e], t[2]);
+                            for prop in ["C15", "C10"] {
+                                if !self.fails.iter().any(|f| f.0 == prop && f.1 == "bind-false-on-foreign-frame") {
+                                    self.fails.push((prop.into(), "bind-false-on-foreign-frame".into(), msg.clone()));
+                                }
+                            }
+                        }
+                    }
                     if clean {
                         let port = self.bind_ports.iter().find(|(_, v)| **v == (e, req)).map(|(p, _)| *p);
                         let decision = port.and_then(|p| self.bind_decision.get(&p).copied());
@@ -1258,7 +1283,7 @@ impl World {
                 }
                 ["exit", r] => {
                     self.view[e].exited = true;
-                    self.tabled[e].clear();
+                    self.tabled[e].clear(); self.abandoned[e].clear();
                     self.est[e].clear();
                     self.pend[e].clear();
                     self.inc[e].clear();
@@ -1284,7 +1309,7 @@ impl World {
             self.est[e].clear();
             self.pend[e].clear();
             self.inc[e].clear();
-            self.tabled[e].clear();
+            self.tabled[e].clear(); self.abandoned[e].clear();
         }
     }
 
@@ -1433,7 +1458,7 @@ fn run_case(r: &mut Rng, focus: Focus, len: usize) -> World {
     }
     // C07: a burst of opens against an acceptor that is momentarily not accepting, with more requests
     // than its accept queue holds (the receive loop then has to wait for the application)
-    let burst = focus == Focus::C07 && r.chance(1, 4);
+    let burst = (focus == Focus::C07 && r.chance(1, 4)) || (focus == Focus::C04 && r.chance(1, 6));
     if burst {
         oa.accept_cap = r.range(1, 2) as usize;
         ob.accept_cap = r.range(1, 2) as usize;
@@ -1441,7 +1466,7 @@ fn run_case(r: &mut Rng, focus: Focus, len: usize) -> World {
     // … and, in half of the bursts, the acceptor asks for a stream of its own while its receive loop is
     // waiting for room in the accept queue, and draws the very id of the Connect that is waiting
     let burst_e = r.below(2) as usize;
-    let collide = burst && r.chance(1, 2);
+    let collide = burst && focus == Focus::C07 && r.chance(1, 2);
     let mut w = World::new([oa, ob]);
     w.silent = matches!(focus, Focus::C08) && r.chance(1, 4);
     // scripted ids: small alphabet so that collisions and reuse happen
@@ -1696,6 +1721,18 @@ fn run_case(r: &mut Rng, focus: Focus, len: usize) -> World {
                         f.push(0xe0 | (k as u8 & 15));
                         w.stim(e, &[s("deliver"), s("bin"), hexd(&f)]);
                     }
+                }
+                // a well-formed stream frame on the id of a pending bind request of this endpoint (a stale frame of an
+                // earlier holder of the id, a confused peer): answered with a Reset, the request stays
+                3 | 7 if matches!(focus, Focus::C15 | Focus::C10) && !w.bind_ids[e].is_empty() && !w.view[e].exited && r.chance(2, 3) => {
+                    let mut ids: Vec<u32> = w.bind_ids[e].iter().copied().collect();
+                    ids.sort_unstable();
+                    let id = *r.pick(&ids);
+                    w.injected = true;
+                    let mut f = vec![if r.chance(1, 2) { 0x71u8 } else { 0x74 }];
+                    f.extend_from_slice(&id.to_be_bytes());
+                    if f[0] == 0x71 { f.extend_from_slice(&(r.range(1, 4) as u32).to_be_bytes()); } else { f.extend(r.bytes(2)); }
+                    w.stim(e, &[s("deliver"), s("bin"), hexd(&f)]);
                 }
                 3 => { w.injected = true; let n = r.range(0, 6) as usize; let mut b = r.bytes(n); if !b.is_empty() { b[0] = 0x79; } w.stim(e, &[s("deliver"), s("bin"), hexd(&b)]); }
                 4 if w.sims[e].pending_futures() == 0 && w.view[e].mux_alive => { w.stim(e, &[s("dropmux")]); }
@@ -2096,8 +2133,8 @@ fn abandoned_open_case(r: &mut Rng, focus: Focus) -> World {
     let mut w = World::new([oa, ob]);
     let x = r.range(1, 0xffff_fffe);
     for e in 0..2 {
-        let mut t = vec![s("rng"), s(x)];
-        t.extend((0..7).map(|_| s(r.range(1, 0xffff_ffff))));
+        let mut t = vec![s("rng"), s(x), s(x)];
+        t.extend((0..6).map(|_| s(r.range(1, 0xffff_ffff))));
         w.stim(e, &t);
         w.view[e].rng_left = 8;
     }
@@ -2107,6 +2144,11 @@ fn abandoned_open_case(r: &mut Rng, focus: Focus) -> World {
     w.stim(oe, &[s("open"), s(req), hexd(&r.bytes(2)), s(1000 + req)]);
     let early = r.chance(1, 2);
     if early { w.stim(oe, &[s("cancelopen"), s(req)]); }
+    if early && r.chance(1, 2) {
+        // the caller asks again at once (a retry after its time-out): the abandoned request's id is still out
+        let req1 = w.next_req; w.next_req += 1;
+        w.stim(oe, &[s("open"), s(req1), hexd(&r.bytes(3)), s(1000 + req1)]);
+    }
     while w.deliver_next(pe) {}
     if !early { w.stim(oe, &[s("cancelopen"), s(req)]); }
     // the late Acknowledge; whatever the requester answers travels back
@@ -2577,7 +2619,9 @@ fn final_checks(w: &mut World) {
             if let (Some(h), None) = (ent[oe], ent[1 - oe]) {
                 let msg = format!("open request {req} of {} (port {port}) resolved Ok (stream {}#{h}), but the application of {} was never handed a stream for it although it accepted until its accept queue was empty, the connection is up and nothing is in flight (accept queue capacity of {}: {})",
                     NAMES[oe], NAMES[oe], NAMES[1 - oe], NAMES[1 - oe], w.opts[1 - oe].accept_cap);
-                w.fail("C07", "open-ok-without-accept", msg);
+                w.fail("C07", "open-ok-without-accept", msg.clone());
+                // C04: "new stream requests … continue to make progress" while the application keeps accepting
+                w.fail("C04", "open-ok-without-accept", msg);
             }
         }
         // C15: every bind request resolves — with `false` at once when the peer takes no binds, with the peer
